@@ -43,6 +43,8 @@ const HAZARD_NAMES: &[&str] = &[
     "\u{7f}", "a\"", "\\", "\\u0041", "k,1", "a\":", "k:[", "'", "<>", "{}", "]", "a]", "%", "#", "@", "a=b", "-", "_",
     // names that are themselves JSON texts (not in canonical spacing): a name is never re-parsed
     "{\"a\":1}", "{\"a\": 1}", " 7", "1e3", "-0", "null", "true", "\"q\"", "7", "{ }",
+    // a quote followed by a reserved word: the serialised text then contains `"_sd":` / `"...":`
+    "x\"_sd", "\"_sd", "x\"...", "3.5\"...", "\"_sd\"", "\\\"_sd_alg", "_sd\"", "...\"",
 ];
 const BMP_NAMES: &[&str] = &["é", "日本", "ключ", "\u{80}", "\u{7ff}", "\u{800}", "\u{ffff}", "\u{fffd}", "ß", "ǅ", "\u{200b}", "e\u{301}"];
 const NONBMP_NAMES: &[&str] = &["😀", "𝒳y", "\u{10000}", "\u{10ffff}", "a😀", "😀n", "\u{1f600}\u{1f601}"];
